@@ -255,6 +255,7 @@ def run_case(case: dict, ctx: dict) -> dict:
             "out_rel": fixed.get("out_rel") or r.choice(OUTS),
             "outdir_spelling": fixed.get("outdir_spelling") or r.choice(SPELLINGS),
             "in_spelling": r.choice(["abs", "rel"]),
+            "root_spelling": r.choice([None, None, None, "child_dotdot", "symlink_alias"]),
             "roots_order": order,
             "lookup_all": r.chance(1, 4),
             "enum_seed": r.below(1 << 30),
@@ -318,6 +319,9 @@ def run_case(case: dict, ctx: dict) -> dict:
         lookups = deps_of(root)
         deps_record[root] = lookups
         opts = {"lang": lang, "root": root, "lookups": lookups, "outdir_spelling": plan["outdir_spelling"], "in_spelling": plan["in_spelling"]}
+        if plan.get("root_spelling"):
+            opts["root_spelling"] = plan["root_spelling"]
+            world.spell(os.path.join(world.in_dir, root), plan["root_spelling"])  # (the link exists before any snapshot)
         for k in ("ext", "ns_stem", "ns_types", "std"):
             if plan.get(k):
                 opts[k] = plan[k]
@@ -384,8 +388,8 @@ def run_case(case: dict, ctx: dict) -> dict:
         if not nnvg.succeeded(res):
             bump("ops", "run-failed")
             # the spelling of the output directory must not decide whether generation succeeds: try the absolute one
-            if opts.get("outdir_spelling", "abs") != "abs" or opts.get("in_spelling", "abs") != "abs":
-                res2 = proc.run_invocation(world.invocation(dict(opts, outdir_spelling="abs", in_spelling="abs"), enum_seed=plan["enum_seed"] + step))
+            if opts.get("outdir_spelling", "abs") != "abs" or opts.get("in_spelling", "abs") != "abs" or opts.get("root_spelling"):
+                res2 = proc.run_invocation(world.invocation(dict(opts, outdir_spelling="abs", in_spelling="abs", root_spelling=None), enum_seed=plan["enum_seed"] + step))
                 evaluations += 1
                 if nnvg.succeeded(res2):
                     violation("generation-fails-only-for-this-path-spelling:%s" % res["status"], dict(brief, outdir_spelling=opts.get("outdir_spelling"), in_spelling=opts.get("in_spelling")))
@@ -474,7 +478,7 @@ def reductions(case: dict) -> typing.Iterator[dict]:
             c = dict(case)
             c["plan"] = dict(plan, roots_order=plan["roots_order"][:i] + plan["roots_order"][i + 1 :])
             yield c
-    for k, neutral in (("dirty", False), ("no_strop", None), ("templates", None), ("ext", None), ("ns_stem", None), ("ns_types", None), ("std", None), ("support", None), ("lookup_all", False), ("cwd_rel", "cwd"), ("out_rel", "out"), ("outdir_spelling", "abs"), ("in_spelling", "abs")):
+    for k, neutral in (("dirty", False), ("no_strop", None), ("templates", None), ("ext", None), ("ns_stem", None), ("ns_types", None), ("std", None), ("support", None), ("lookup_all", False), ("cwd_rel", "cwd"), ("out_rel", "out"), ("outdir_spelling", "abs"), ("in_spelling", "abs"), ("root_spelling", None)):
         if plan.get(k) not in (neutral, None):
             c = dict(case)
             c["plan"] = dict(plan)
